@@ -12,7 +12,7 @@
 (* File format: NDJSON, one event per line; many runs per file, each       *)
 (* starting with a "setup" event.                                          *)
 (***************************************************************************)
-EXTENDS Library, Json, IOUtils
+EXTENDS Library, Json, IOUtils, FiniteSets
 
 Rec == ndJsonDeserialize(IOEnv.TRACE)
 
@@ -144,9 +144,35 @@ TraceCall ==
   /\ CmpH => (out'.ret = Ev.ret /\ out'.err = Ev.err)
   /\ OpsMatch(Ev.tx, NewOps(Ev.role))
 
+(* C09: which draw plays which role.  By default the draws are taken in the order the reference revision makes them.  When the
+   harness found the roles out by intervention on the RNG stream (Ev.roles: for every draw, in stream order, the list of roles it was
+   seen to play - see infer_roles in the harness), the specification demands that this map is a bijection between the draws that are
+   used and the roles the protocol has (no draw serves two commitments, no role goes without a draw of its own) and hands the draws
+   to the reference prover role by role: a revision that merely draws its nonces in another order is not reported. *)
+HasRoles == Has(Ev, "roles")
+RolesStable == HasRoles => Ev.roles_stable
+RoleOrder1(n1) ==
+  << <<"i", 1, 0>>, <<"o", 1, 0>>, <<"s", 1, 0>> >> \o [j \in 1 .. n1 |-> <<"sL", 1, j - 1>>] \o [j \in 1 .. n1 |-> <<"sR", 1, j - 1>>]
+RoleOrder2(n1, n2) ==
+  (IF n2 > 0 THEN << <<"i", 2, 0>>, <<"o", 2, 0>>, <<"s", 2, 0>> >> ELSE << >>)
+    \o [j \in 1 .. n2 |-> <<"sL", 2, n1 + j - 1>>] \o [j \in 1 .. n2 |-> <<"sR", 2, n1 + j - 1>>]
+    \o << <<"t", 1, 0>>, <<"t", 3, 0>>, <<"t", 4, 0>>, <<"t", 5, 0>>, <<"t", 6, 0>> >>
+DrawsOf(role) == {k \in 1 .. Len(Ev.roles) : Ev.roles[k] = << role >>}
+RolesOkFor(order) ==
+  /\ Ev.rng_ok
+  /\ Len(Ev.roles) = Len(Ev.allrng)
+  /\ \A k \in 1 .. Len(Ev.roles) : Len(Ev.roles[k]) <= 1                  \* no draw serves two roles
+  /\ \A j \in 1 .. Len(order) : Cardinality(DrawsOf(order[j])) = 1         \* every role has a draw of its own
+ByRole(order) == [j \in 1 .. Len(order) |-> Ev.allrng[CHOOSE k \in 1 .. Len(Ev.roles) : Ev.roles[k] = << order[j] >>]]
+\* n1: first-phase gates; n2: second-phase gates (known once the callbacks ran); which: 1 = first part of prove, 2 = second part, 0 = both
+RoleOrderFor(which, n1, n2) ==
+  CASE which = 1 -> RoleOrder1(n1) [] which = 2 -> RoleOrder2(n1, n2) [] OTHER -> RoleOrder1(n1) \o RoleOrder2(n1, n2)
+Draws(which, n1, n2) ==
+  IF HasRoles /\ Ev.roles_stable /\ RolesOkFor(RoleOrderFor(which, n1, n2)) THEN ByRole(RoleOrderFor(which, n1, n2)) ELSE Ev.rng
 \* rng_ok = FALSE: the recorded RNG output did not parse as a whole number of scalar draws
-RngOk(used) == Ev.rng_ok /\ Len(Ev.rng) = used
-Draws == Ev.rng
+RngOk(used, which, n1, n2) ==
+  IF HasRoles THEN (Ev.roles_stable => RolesOkFor(RoleOrderFor(which, n1, n2)))
+  ELSE Ev.rng_ok /\ Len(Ev.rng) = used
 
 \* the value the code appended under `label` during this event (0 if absent)
 Appended(label) ==
@@ -156,32 +182,33 @@ Appended(label) ==
 TraceProve1 ==
   /\ IsEvent("prove1") /\ ~degen
   /\ CmpG => GensBound("P", Ev.cap)
-  /\ ProveStart(Ev.cap, Draws, [AI1 |-> Appended("A_I1"), AO1 |-> Appended("A_O1"), S1 |-> Appended("S1")])
-  /\ (CmpP \/ CmpB) => (RngOk(out'.used) /\ mid'.P.em = out'.ref)
+  /\ ProveStart(Ev.cap, Draws(1, PLen(cs.P), 0), [AI1 |-> Appended("A_I1"), AO1 |-> Appended("A_O1"), S1 |-> Appended("S1")])
+  /\ ((CmpP \/ CmpB) /\ RolesStable) => (RngOk(out'.used, 1, PLen(cs.P), 0) /\ mid'.P.em = out'.ref)
   /\ OpsMatch(Ev.tx, NewOps("P"))
 
 EmittedProof == IF Has(Ev, "proof") THEN Ev.proof ELSE NoProof
 
-ProveOutcome ==
+ProveOutcome(which, n1, n2) ==
   \/ degen'                                   \* zero challenge: the code panics or errs; nothing is demanded
   \/ /\ CmpE => res'.P = Ev.res
      /\ CmpK => ((Ev.res = "InvalidGeneratorsLength") <=> (res'.P = "InvalidGeneratorsLength"))
      /\ (CmpR /\ Ev.res = "ok") => Ev.ext_taken = 32      \* finalize keyed the RNG with 32 bytes of the caller's randomness
      /\ OpsMatch(Ev.tx, NewOps("P"))
-     /\ (CmpP /\ res'.P = "ok") => (RngOk(out'.used) /\ wire' = out'.ref)
-     /\ (CmpB /\ res'.P = "ok") => (RngOk(out'.used) /\ BlindFields(wire') = BlindFields(out'.ref))
+     /\ (CmpP /\ res'.P = "ok" /\ RolesStable) => (RngOk(out'.used, which, n1, n2) /\ wire' = out'.ref)
+     /\ (CmpB /\ res'.P = "ok" /\ RolesStable) => (RngOk(out'.used, which, n1, n2) /\ BlindFields(wire') = BlindFields(out'.ref))
 
 TraceProve2 ==
   /\ IsEvent("prove2") /\ ~degen
   /\ CmpG => GensBound("P", Ev.cap)
-  /\ \/ ProveFinish(Ev.cap, Draws, ChVals(Ev.tx), EmittedProof) /\ ProveOutcome
+  /\ \/ LET n1 == mid.P.ref.n1  n2 == PLen(cs.P) - mid.P.ref.n1
+        IN ProveFinish(Ev.cap, Draws(2, n1, n2), ChVals(Ev.tx), EmittedProof) /\ ProveOutcome(2, n1, n2)
      \/ ProveAbort /\ (CmpE => res'.P = Ev.res) /\ (CmpO => Ev.tx = << >>)
 
 TraceProve ==
   /\ IsEvent("prove") /\ ~degen
   /\ CmpG => GensBound("P", Ev.cap)
-  /\ Prove(Ev.cap, Draws, ChVals(Ev.tx), EmittedProof)
-  /\ ProveOutcome
+  /\ Prove(Ev.cap, Draws(0, PLen(cs.P), 0), ChVals(Ev.tx), EmittedProof)
+  /\ ProveOutcome(0, PLen(cs.P), 0)
 
 TraceWire ==
   /\ IsEvent("wire") /\ ~degen
